@@ -418,8 +418,9 @@ def c07_unsaved_imports(V):
                     fh.write(tx)
             first = [{"op": "set_root", "path": d + "/R"}] + \
                 [{"op": "analyze", "path": P[s], "text": texts[s], "fresh": True} for s in sorted(texts) if s != "i"]
-            q = {"op": "goto", "path": P["t"], "line": 0, "col": 11}
-            for bk, btext in sorted(buffers.items()):
+            for q in ({"op": "goto", "path": P["t"], "line": 0, "col": 11}, {"op": "available", "path": P["t"]},
+                      {"op": "imported", "path": P["c"]}):
+              for bk, btext in sorted(buffers.items()):
                 for requery in (False, True):
                     ops = list(first)
                     if requery:
@@ -428,7 +429,7 @@ def c07_unsaved_imports(V):
                     n_main = len(ops)
                     ops += [{"op": "newdb"}] + first + [q]
                     ctx[k] = (n_main, {"conftest_on_disk": ctext, "unsaved_buffer": btext, "outer_conftest": outer,
-                                       "queried_before": requery, "dir": d})
+                                       "queried_before": requery, "dir": d, "query": q["op"]})
                     cases.append({"id": k, "ops": ops})
                     k += 1
     for res in C.run_harness(iter(cases)):
@@ -436,10 +437,15 @@ def c07_unsaved_imports(V):
         V.count()
         V.nontriv("unsaved" + json.dumps(ex))
         warm, never = res["res"][n_main - 1], res["res"][-1]
-        key = lambda a: a if not isinstance(a, dict) or "file" not in a else (a["file"], a["line"])
+        def key(a):
+            if isinstance(a, dict) and "file" in a:
+                return (a["file"], a["line"])
+            if isinstance(a, list):
+                return sorted(json.dumps(x, sort_keys=True) for x in a)
+            return a
         if key(warm) != key(never):
             V.violation(dict(ex, after_close=warm, never_opened=never),
-                        "after an import-only edit was closed without saving, go-to-definition differs from a server that never opened the document")
+                        "after an import-only edit was closed without saving, the answer differs from a server that never opened the document")
     shutil.rmtree(root, ignore_errors=True)
     return k
 
@@ -483,7 +489,7 @@ def check_c07(tier):
              "only the edits.  Three configurations: the conftest/helper/test universe (incl. mutually importing modules and "
              "same-named fixtures with / without a dependency cycle); the same universe starting UNSCANNED with the workspace scan "
              "(the real scan_workspace over the on-disk tree) as one event of the history; a conftest CHAIN whose two conftests "
-             "share a re-exporting module.  Plus 64 hand-built histories that close a conftest WITHOUT saving after an edit of "
+             "share a re-exporting module.  Plus 192 hand-built histories (go-to-definition, available fixtures, imported names) that close a conftest WITHOUT saving after an edit of "
              "its import lines only, judged against a twin that never opened it.  non-trivial = an earlier query/close/evict precedes the final query",
         assumptions=["eviction is emulated for a chosen victim through the pub maps exactly as mod.rs:336-343; the pressure-driven trigger (> 2000 cached files) is provoked for real in a separate step",
                      "close/evict only of documents whose buffer equals the disk content (the statement's 'unmodified document')"])
